@@ -104,11 +104,11 @@ PROPS['C10'] = {
 PROPS['C22'] = {
     'units': [],
     'functions': [],
-    'kani': {'quick': ['c22_start_query_resets', 'c22_stop_flag', 'c22_make_query_resets', 'c10_counter_contract'], 'thorough': []},
+    'kani': {'quick': ['c22_start_query_resets', 'c22_stop_flag', 'c22_make_query_resets', 'c22_start_query_timer_resets', 'c10_counter_contract'], 'thorough': []},
     'oracles': {},
     'not_covered': [
         "that the engine reads no other cross-query state, and reads the stop flag / id counter only through count_rules / next_id: assumed (read, not proved)",
-        'start_query_timer spawns a thread (not harnessable); that its first statement clears the flag is read, not proved',
+        'the timer thread itself (ThreadTimer) is stubbed in the start_query_timer harness: only the flag reset before arming it is proved',
         'parse_query is covered through make_query (it ends in make_query); the string parsing itself is outside',
     ],
 }
